@@ -169,6 +169,25 @@ func (*TumblingWindow).getWindowKey
   ensures windows-that-end-at-different-instants-have-different-keys-the-key-spells-the-end-to-the-nanosecond: result == fmt.Sprintf("%d", endTime.UnixNano())
 
 // every watermark the window receives is acted on: the intervals are checked against it, none is skipped
+// processing time: every expiry of the window's timer fires the window once, and nothing else does; the loop ends
+// only when the window is stopped
+func (*TumblingWindow).startProcessingTime$1
+  props C01 C02
+  modifies *
+  count expired := select@3#0
+  count fired := Trigger
+  before Trigger the-window-fires-because-its-timer-expired: $selected == 0
+  loop 1 invariant every-expiry-of-the-timer-so-far-fired-the-window-once: $fired == $expired
+
+// the same for the sliding window's step timer: once the first window has been fired, every expiry of the step timer
+// fires the window once and nothing else does
+func (*SlidingWindow).startProcessingTime$1
+  props C08 C02
+  modifies *
+  count expired := select@4#0
+  count fired := Trigger
+  loop 1 step every-expiry-of-the-step-timer-fires-the-window-once-and-nothing-else-does: $fired - prev($fired) == $expired - prev($expired)
+
 func (*TumblingWindow).startEventTime$1
   props C01 C02
   modifies *
